@@ -171,8 +171,8 @@ def self_test():
 
 
 LAWS = [
-    given_law("von_karman", vk_cases(28), body, {"quick": 20, "thorough": 60}, shards={"quick": 3, "thorough": 16}),
-    given_law("von_karman_large", vk_cases(40), body, {"quick": 4, "thorough": 15}, shards={"quick": 2, "thorough": 8}),
-    given_law("fried", fried_cases(20), body, {"quick": 10, "thorough": 40}, shards={"quick": 3, "thorough": 16}),
-    given_law("fried_large", fried_cases(40), body, {"quick": 2, "thorough": 8}, shards={"quick": 2, "thorough": 8}),
+    given_law("von_karman", vk_cases(28), body, {"quick": 30, "thorough": 200}, shards={"quick": 5, "thorough": 16}),
+    given_law("von_karman_large", vk_cases(40), body, {"quick": 5, "thorough": 40}, shards={"quick": 3, "thorough": 16}),
+    given_law("fried", fried_cases(20), body, {"quick": 16, "thorough": 120}, shards={"quick": 5, "thorough": 16}),
+    given_law("fried_large", fried_cases(40), body, {"quick": 3, "thorough": 20}, shards={"quick": 3, "thorough": 16}),
 ]
